@@ -332,7 +332,13 @@ def directed():
                 orderby=((g.agg('max', g.column('A', 'z')), 'desc'), (g.column('A', 'x'), 'asc'))),
         g.query(g.join(a, b, 'inner', eq), select=(g.column('A', 'x'), g.alias(g.agg('count', g.column('A', 'y')), 'n')),
                 groupby=(g.column('A', 'x'),), orderby=((g.agg('sum', g.column('B', 'w')), 'asc'), (g.column('A', 'x'), 'asc'))),
-    ] + nested_outer_joins()
+    ] + nested_outer_joins() + referenced_joins()
+
+
+def referenced_joins():
+    from checks import c06
+
+    return c06.referenced_joins()
 
 
 def nested_outer_joins():
